@@ -396,6 +396,16 @@ def run(chk):
                    "applied only when %s: with both transforms set the %s part is skipped" % ("; ".join(bad), kind) if bad else "")
     chk.floor("C10-D6.independent", nind, 12, "applications of a linear or conformal correction in the API class")
 
+    from rules import kinds
+    chk.rule("C10-D8.kinds", "the conformal route of integrate() (and the plain one) multiplies like with like in every grid class: quadrature weights, corrected node by node, with the values at the "
+                             "nodes; integrals of the basis functions with the hierarchical coefficients")
+    nk = kinds.kinds_rule(chk, db, "C10-D8.kinds")
+    chk.floor("C10-D8.kinds", nk, 8, "products accumulated by the integrate() routines of the grid classes")
+    from rules import extent
+    chk.rule("C10-D9.extent", "the correction of a transform, applied in place to an output buffer by a raw-pointer method of the API class, runs over the whole buffer: the loop bound equals the "
+                              "size the vector overload of the same method gives to that buffer (compared symbolically)")
+    nx = extent.extent_rule(chk, db, "C10-D9.extent")
+    chk.floor("C10-D9.extent", nx, 3, "in-place corrections of output buffers paired with a sizing overload")
     from rules import routing
     nrt = routing.routing_rule(chk, db, "C10-D7.routing")
     chk.floor("C10-D7.routing", nrt, 15, "forwarding calls of the three families")
